@@ -70,18 +70,56 @@ IDEAL_HASH = "Configuration instantiated at kani_core::model::{ModelWA, ModelEXP
 
 
 def c05_obligations(tier, seed):
+    import json, os
+    shapes = json.load(open(os.path.join(os.path.dirname(__file__), "c05_shapes.json")))
+    rnd = random.Random(seed)
     obs = []
-    def add(name, claim, bound, role, cap=(900, 3000)):
+    claims = {
+        "nm": ("for the tree of this shape (all key bits, leaf hashes, query labels symbolic): a non-membership proof assembled from ANY real "
+               "internal node (its real children, its real sibling path) verifies only if the queried label is not a leaf; and the proof "
+               "anchored at the deepest matching node (honest prover) verifies for every absent label", "nm_real+cn"),
+        "cm": ("for the tree of this shape: the honest membership proof of every leaf verifies and carries the leaf's hash", "cm"),
+    }
+
+    def add_shape(name):
+        kind = name.split("_")[1]
         cfg = "ModelWA" if "_wa_" in name else "ModelEXP"
-        obs.append(kani_ob("C05." + name, claim, "c05::c05_" + name, C05_FUNCS, bound, cap=cap, role=role,
-                           inst=cfg, assumes=[IDEAL_HASH]))
-    nm_real = "a non-membership proof assembled from a real internal node (its real children, its real sibling path) " \
-              "verifies only if the queried label is not a leaf"
-    quick = [("nm_real_wa_l2_w4_d0", 2, 4, 0), ("nm_real_wa_l2_w4_d1", 2, 4, 1), ("nm_real_wa_l3_w4_d0", 3, 4, 0),
-             ("nm_real_wa_l3_w4_d1", 3, 4, 1), ("nm_real_exp_l3_w4_d0", 3, 4, 0)]
-    for name, l, w, d in quick:
-        add(name, nm_real, "%d leaves, %d-bit labels (all key sets), anchor at depth %d (any direction choices), query label any %d-bit string; unwind 9, memcmp 34" % (l, w, d, w),
-            "nm_sound_real")
+        claim, role = claims[kind]
+        obs.append(kani_ob("C05." + name[5:], claim, "c05::" + name, C05_FUNCS,
+                           "one concrete tree shape (first-difference positions of neighbouring sorted keys) + root side; %s; unwind 9/11, memcmp 34" % name,
+                           cap=(900, 2400), role=role, inst=cfg, assumes=[IDEAL_HASH]))
+
+    def pick(key, k):
+        names = shapes[key]
+        if k is None or k >= len(names):
+            return list(names)
+        return rnd.sample(names, k)
+
+    plan_quick = [("nm_wa_l1_w3", None), ("cm_wa_l1_w3", None), ("nm_exp_l1_w3", None), ("nm_wa_l2_w4", None), ("nm_exp_l2_w4", 4),
+                  ("cm_wa_l2_w4", 3), ("cm_exp_l2_w4", 2), ("nm_wa_l3_w4", 6), ("nm_exp_l3_w4", 3), ("cm_wa_l3_w4", 2), ("nm_wa_l2_w3x256", 2)]
+    plan_thorough = [("nm_wa_l1_w3", None), ("cm_wa_l1_w3", None), ("nm_exp_l1_w3", None), ("cm_exp_l1_w3", None),
+                     ("nm_wa_l2_w4", None), ("nm_exp_l2_w4", None), ("cm_wa_l2_w4", None), ("cm_exp_l2_w4", None),
+                     ("nm_wa_l3_w4", None), ("nm_exp_l3_w4", None), ("cm_wa_l3_w4", None), ("cm_exp_l3_w4", None),
+                     ("nm_wa_l2_w3x256", None), ("nm_exp_l2_w3x256", None), ("cm_wa_l2_w3x256", None),
+                     ("nm_wa_l4_w5", 24), ("nm_exp_l4_w5", 12), ("cm_wa_l4_w5", 8), ("nm_wa_l3_w8x256", 16), ("nm_exp_l3_w8x256", 8)]
+    for key, k in (plan_quick if tier == "quick" else plan_thorough):
+        for name in pick(key, k):
+            add_shape(name)
+
+    # fully symbolic candidate proofs over symbolic-shape trees (crate::trie)
+    def add_free(name, claim, bound, role, cap=(900, 3000)):
+        cfg = "ModelWA" if "_wa_" in name else "ModelEXP"
+        obs.append(kani_ob("C05." + name, claim, "c05::c05_" + name, C05_FUNCS, bound, cap=cap, role=role, inst=cfg, assumes=[IDEAL_HASH]))
+    mfree = "a membership proof ALL of whose fields are symbolic (label, hash, every sibling label/value/direction) verifies only if (label, hash) is a real node of the tree"
+    nmfree = "a non-membership proof ALL of whose fields are symbolic verifies only if the queried label is not a leaf"
+    free_quick = [("m_free_wa_l2_w4_s0", 2, 4, 0), ("m_free_exp_l2_w4_s0", 2, 4, 0), ("m_free_wa_l2_w4_s1", 2, 4, 1)]
+    free_thorough = free_quick + [("m_free_exp_l2_w4_s1", 2, 4, 1), ("m_free_wa_l3_w4_s2", 3, 4, 2), ("m_free_exp_l3_w4_s2", 3, 4, 2),
+                                  ("m_free_wa_l3_w4_s1", 3, 4, 1), ("m_free_wa_l3_w4_s3", 3, 4, 3)]
+    for name, l, w, sib in (free_quick if tier == "quick" else free_thorough):
+        add_free(name, mfree, "%d leaves (all key sets, symbolic shape), %d-bit labels, %d sibling proofs, every direction pattern; unwind 9, memcmp 34" % (l, w, sib), "m_sound_free")
+    if tier == "thorough":
+        for name, l, w, sib in [("nm_free_wa_l2_w4_s0", 2, 4, 0), ("nm_free_wa_l2_w4_s1", 2, 4, 1), ("nm_free_exp_l2_w4_s1", 2, 4, 1)]:
+            add_free(name, nmfree, "%d leaves, %d-bit labels, %d sibling proofs; unwind 9, memcmp 34" % (l, w, sib), "nm_sound_free", cap=(1800, 3600))
     return obs
 
 
@@ -99,10 +137,17 @@ def akd_ob(id, claim, harness, functions, bound, cap=(600, 1200), role=None, ass
 
 
 def c13_obligations(tier, seed):
-    return [akd_ob("C13.select", "for every stored node record (latest + optional previous, every field symbolic) and every target "
-                   "epoch t, determine_node_to_get returns a node last written at or before t, or NotFound; the latest node whenever it is old enough",
-                   "c13::c13_select_never_newer_than_target", [TN + "::determine_node_to_get"],
-                   "no bound except the types (all u64 epochs, all 32-byte labels/hashes); unwind 34", role="select")]
+    b = "no bound except the types (all u64 epochs, every field of latest/previous node symbolic, previous present or absent); unwind 34"
+    f = [TN + "::determine_node_to_get"]
+    return [
+        akd_ob("C13.select_not_newer", "for every stored node record and every target epoch t, determine_node_to_get returns a node last "
+               "written at or before t, or NotFound (never the state of a later epoch)",
+               "c13::c13_select_never_newer_than_target", f, b, role="select_not_newer"),
+        akd_ob("C13.select_exact", "the node returned is exactly the stored latest node when it is old enough, otherwise exactly the stored previous node",
+               "c13::c13_select_returns_stored_node_unchanged", f, b, role="select_exact"),
+        akd_ob("C13.select_available", "NotFound is returned only when neither the latest nor the previous node is old enough",
+               "c13::c13_select_notfound_only_when_nothing_qualifies", f, b, role="select_available"),
+    ]
 
 
 def c11_obligations(tier, seed):
@@ -132,10 +177,53 @@ def c15_obligations(tier, seed):
     ]
 
 
+# ------------------------------------------------------------------------------------------------
+# C08 (Engine M: MIR -> SMT)
+UT = "akd_core/src/utils.rs"
+GMV = [UT + "::get_marker_versions", UT + "::find_max_index_in_skiplist", UT + "::get_marker_version_log2", UT + "::get_bit_length"]
+STD_TRUST = "semantic models of std entry points used by the encoded MIR: Vec::<u64>::{new,push,len,is_empty,index,extend_from_slice}, " \
+            "Range/Rev<Range>::{into_iter,rev,next}, u64::leading_zeros, <[u64]>::is_empty, <[u64;7] as Index<Range<usize>>>::index, panic_fmt"
+
+
+def mir_ob(id, kind, claim, functions, width, bound, cap):
+    return {"id": id, "engine": "mir", "kind": kind, "claim": claim, "functions": functions, "width": width, "bound": bound,
+            "query_cap_s": cap, "cap_s": (cap * 8, cap * 8), "stubs": [], "assumes": [STD_TRUST], "role": kind, "instantiation": None}
+
+
+def c08_obligations(tier, seed):
+    w = 8 if tier == "quick" else 16
+    cap = 300 if tier == "quick" else 1500
+    wb = "all 1 <= s <= n <= E < 2^%d (64-bit bit-vectors, unwind %d; unwinding assertions are queries); larger epochs outside the claim" % (w, w + 2)
+    obs = [
+        mir_ob("C08.V", "validate", "translator validation: the SMT encoding of get_marker_versions (from this run's MIR dump) agrees with the real "
+               "function executed natively on the repository's test vectors, seeded random triples up to 64 bits and panicking inputs",
+               GMV, 64, "concrete inputs up to 64 bits; unwind 66", cap),
+        mir_ob("C08.M1", "m1", "get_marker_versions never panics, its loops terminate within the bound, past markers are strictly increasing in [1,s), "
+               "future markers strictly increasing in (n,E]; past depends only on s and future only on (n,E)", GMV, w, wb, cap),
+        mir_ob("C08.M5", "m5", "server and verifier compute the same lookup marker: directory::get_marker_version(v) = utils::get_marker_version_log2(v) "
+               "and 1 << it is the largest power of two <= v, for all v >= 1",
+               [UT + "::get_marker_version_log2", "akd/src/directory.rs::get_marker_version"], 64, "all 64-bit v >= 1 (loop-free)", cap),
+        mir_ob("C08.M6", "m6", "as sets, the real past/future marker vectors equal the closed-form predicates spec_past / spec_future "
+               "(independent statement of the documented skip-list construction)", GMV, w, wb, cap),
+        mir_ob("C08.M2", "m2", "history/history: for any two history ranges [s1..n], [s2..m] with n < m <= E the versions the first shows absent "
+               "(future(n,E)) intersect the versions the second shows present ([s2..m] u past(s2)), on the real code's outputs", GMV, w, wb, cap),
+        mir_ob("C08.M4", "m4", "lookup/history: every (n,m,E), n<m<=E, for which lookup(m) (presenting m and 2^floor(log m)) avoids all future markers of a "
+               "complete history ending at n on the REAL code is an instance of the documented-construction hole (known finding F-C08); any other hole is a violation",
+               GMV, w, wb, cap),
+    ]
+    return obs
+
+
 KERNEL_ONLY = "kernel-level claim: the named pure functions are decided for all inputs; the async code that calls them " \
               "(StorageManager, Directory, Azks, caches, schedules, crash points) is outside the claim"
 
 PROPERTIES = {
+    "C08": {"obligations": c08_obligations, "jobs": 6,
+            "assumptions": ["accepted lookup(m) commits the server to fresh(m), fresh(2^floor(log m)) present and stale(m) absent; accepted history [s..n] to fresh(v) present "
+                            "for v in [s..n] u past(s), stale(v) present for v in [s-1..n-1], fresh(v) absent for v in future(n,E) (read off akd_core/src/verify/{lookup,history}.rs; "
+                            "decided for the verifiers under C06/C07)",
+                            "no well-formed tree admits both a membership and a non-membership proof of one label (C05, within its bounds)", STD_TRUST],
+            "outside_claim": ["epochs >= 2^W for the stated width W", "malformed (non-canonical) trees: out of scope of the property's quantifier (leaf sets in a canonical trie)"]},
     "C13": {"obligations": c13_obligations, "jobs": 2, "assumptions": [KERNEL_ONLY],
             "outside_claim": ["interleavings with publishes, the change poller, cache flushes; history generation re-reading the epoch record"]},
     "C11": {"obligations": c11_obligations, "jobs": 2, "assumptions": [KERNEL_ONLY],
@@ -148,9 +236,9 @@ PROPERTIES = {
         "assumptions": ["Kani models the dev profile (overflow checks on)"],
         "outside_claim": ["lengths > 256 (except Ord)", "symbolic-length prefix/LCP beyond the stated bit widths"],
     },
-    "C05_wip": {
+    "C05": {
         "obligations": c05_obligations,
-        "jobs": 8,
+        "jobs": 14,
         "assumptions": [IDEAL_HASH, "honest tree = reference trie of kani_core::trie (oracle, spec of akd_core/src/lib.rs)"],
         "outside_claim": ["the server-side proof generators (async storage code)", "byte-level blake3 formulas"],
     },
